@@ -10,20 +10,25 @@ rp = os.path.join(OUT, 'detection.json')
 if os.path.exists(rp):
     res = json.load(open(rp))
 for (pid, k), (what, needs) in sorted(NEEDS.items()):
-    src = os.path.join(STAGE, pid)
+    # round 1: m1/m2 from the first staging area; round 2 (m3/m4) = m1/m2 of the second staging area
+    src = os.path.join(STAGE if k <= 2 else STAGE + '2', pid)
+    sk = k if k <= 2 else k - 2
+    if not os.path.isdir(src):
+        continue  # staging area gone (fresh session): keep what is already assembled
     d = os.path.join(OUT, '%s-m%d' % (pid, k))
     os.makedirs(d, exist_ok=True)
-    shutil.copy(os.path.join(src, 'm%d.diff' % k), os.path.join(d, 'patch.diff'))
-    demo = 'demo%d.cpp' % k
+    if not (k <= 2 and os.path.exists(os.path.join(d, 'patch.orig-63a117b.diff'))):
+        shutil.copy(os.path.join(src, 'm%d.diff' % sk), os.path.join(d, 'patch.diff'))
+    demo = 'demo%d.cpp' % sk
     shutil.copy(os.path.join(src, demo), os.path.join(d, 'demo.cpp'))
-    clog = os.path.join(src, 'confirm%d' % k, 'confirm.log')
+    clog = os.path.join(src, 'confirm%d' % sk, 'confirm.log')
     confirmed = os.path.exists(clog) and 'RESULT confirmed' in open(clog).read()
     if os.path.exists(clog):
         shutil.copy(clog, os.path.join(d, 'confirm.log'))
     mpi = 'mpi' in open(os.path.join(src, demo)).read().lower()
     meta = {
         "property": pid,
-        "origin": "independent sub-agent given only the property record and a scratch worktree of /repo (no access to /verif)",
+        "origin": "independent sub-agent given only the property record and a scratch worktree of /repo (no access to /verif)" + ("" if k <= 2 else "; round 2: additionally told the round-1 changes and the reverted fixes and asked for different mechanisms"),
         "change": what,
         "needs_to_manifest": needs,
         "confirmed_by_me": confirmed,
